@@ -93,6 +93,9 @@ func (s *Search) And(field, operator string, value interface{}) *Search {
 		return s
 	}
 
+	s.db.RLock()
+	defer s.db.RUnlock()
+
 	return s.db.search(s.object, field, operator, value, s.fields)
 }
 
@@ -103,7 +106,12 @@ func (s *Search) Or(field, operator string, value interface{}) *Search {
 		return s
 	}
 
-	new := s.db.search(s.object, field, operator, value, nil)
+	new := func() *Search {
+		s.db.RLock()
+		defer s.db.RUnlock()
+		return s.db.search(s.object, field, operator, value, nil)
+	}()
+
 	marked := make(map[uint64]bool)
 	// we mark the fields of the new search
 	for _, f := range new.fields {
@@ -126,6 +134,14 @@ func (s *Search) Len() int {
 // Iterator returns an Iterator convenient to iterate over
 // the objects resulting from the search
 func (s *Search) Iterator() (it *iterator, err error) {
+	s.db.RLock()
+	defer s.db.RUnlock()
+
+	return s.iterator()
+}
+
+// iterator must be called with db locked
+func (s *Search) iterator() (it *iterator, err error) {
 	var sch *Schema
 
 	if s.err != nil {
@@ -272,7 +288,7 @@ func (s *Search) collect() (out []Object, err error) {
 		return nil, s.err
 	}
 
-	if it, err = s.Iterator(); err != nil {
+	if it, err = s.iterator(); err != nil {
 		return
 	}
 
